@@ -243,6 +243,7 @@ fn check(m: &PropMeta, tier_s: &str) -> i32 {
     let mut replayed = 0u64;
     let mut gen_labels: BTreeMap<String, u64> = BTreeMap::new();
     let mut gen_evals = 0u64;
+    let mut hangs: Vec<(u32, String, serde_json::Value)> = vec![];
     finished.sort_by_key(|f| (f.1, f.0));
     for (s, replay, code, out) in &finished {
         let tag = if *replay { "replay".to_string() } else { format!("shard {s}") };
@@ -308,71 +309,94 @@ fn check(m: &PropMeta, tier_s: &str) -> i32 {
                 let case_txt = std::fs::read_to_string(&hang_file).unwrap_or_else(|_| "null".into());
                 let case: serde_json::Value =
                     serde_json::from_str(&case_txt).unwrap_or(serde_json::Value::Null);
-                // confirm once more, alone, in a fresh process
-                let confirm = work.join(format!("hang-confirm-{s}.json"));
-                std::fs::write(&confirm, serde_json::to_vec(&json!({"case": case})).unwrap()).unwrap();
-                let mut c = Command::new(&exe)
-                    .arg("replay")
-                    .arg(m.id)
-                    .arg(&confirm)
-                    .stdout(Stdio::null())
-                    .stderr(Stdio::null())
-                    .spawn()
-                    .expect("spawn confirm");
-                let t0 = Instant::now();
-                let mut status = None;
-                while t0.elapsed() < Duration::from_secs(m.hang_secs + 30) {
-                    if let Ok(Some(st)) = c.try_wait() {
-                        status = Some(st.code().unwrap_or(-1));
-                        break;
-                    }
-                    std::thread::sleep(Duration::from_millis(100));
-                }
-                if status.is_none() {
-                    let _ = c.kill();
-                    let _ = c.wait();
-                }
-                match status {
-                    Some(EXIT_OK) => inconclusive.push(format!(
-                        "{tag}: a case made no progress for {}s once but finished on its own when re-run",
-                        m.hang_secs
-                    )),
-                    Some(EXIT_VIOLATION) => violations.push(Violation {
-                        case,
-                        message: "case first hung, and fails when re-run alone".into(),
-                        original_case: None,
-                        stage: "hang-confirm".into(),
-                        seed,
-                        shard: *s,
-                    }),
-                    Some(EXIT_HANG) | None => {
-                        if m.claims_termination {
-                            violations.push(Violation {
-                                case,
-                                message: format!(
-                                    "did not return within {}s (twice, second time alone in a fresh process)",
-                                    m.hang_secs
-                                ),
-                                original_case: None,
-                                stage: "hang".into(),
-                                seed,
-                                shard: *s,
-                            });
-                        } else {
-                            inconclusive.push(format!(
-                                "{tag}: case does not return within {}s (property does not claim termination): {}",
-                                m.hang_secs, case
-                            ));
-                        }
-                    }
-                    Some(c) => internal_error(&format!("{tag}: hang confirmation exited {c}")),
-                }
+                hangs.push((*s, tag.clone(), case));
             }
             c => {
                 eprintln!("{tag}: child exited with status {c}");
                 let _ = std::fs::remove_dir_all(&work);
                 return if c == EXIT_INCONCLUSIVE { EXIT_INCONCLUSIVE } else { EXIT_INTERNAL };
             }
+        }
+    }
+
+    // ---- hangs: confirm (at most three distinct cases, concurrently), alone in fresh processes
+    {
+        let mut distinct: Vec<(u32, String, serde_json::Value)> = vec![];
+        for h in hangs {
+            if !distinct.iter().any(|d| d.2 == h.2) {
+                distinct.push(h);
+            }
+        }
+        let extra = distinct.len().saturating_sub(3);
+        distinct.truncate(3);
+        let mut procs = vec![];
+        for (s, tag, case) in distinct {
+            let confirm = work.join(format!("hang-confirm-{s}.json"));
+            std::fs::write(&confirm, serde_json::to_vec(&json!({"case": case})).unwrap()).unwrap();
+            let c = Command::new(&exe)
+                .arg("replay")
+                .arg(m.id)
+                .arg(&confirm)
+                .stdout(Stdio::null())
+                .stderr(Stdio::null())
+                .spawn()
+                .expect("spawn confirm");
+            procs.push((s, tag, case, c, None::<i32>));
+        }
+        let t0 = Instant::now();
+        while t0.elapsed() < Duration::from_secs(m.hang_secs + 30) && procs.iter().any(|p| p.4.is_none()) {
+            for p in procs.iter_mut() {
+                if p.4.is_none() {
+                    if let Ok(Some(st)) = p.3.try_wait() {
+                        p.4 = Some(st.code().unwrap_or(-1));
+                    }
+                }
+            }
+            std::thread::sleep(Duration::from_millis(100));
+        }
+        for (s, tag, case, mut c, status) in procs {
+            if status.is_none() {
+                let _ = c.kill();
+                let _ = c.wait();
+            }
+            match status {
+                Some(EXIT_OK) => inconclusive.push(format!(
+                    "{tag}: a case made no progress for {}s once but finished on its own when re-run",
+                    m.hang_secs
+                )),
+                Some(EXIT_VIOLATION) => violations.push(Violation {
+                    case,
+                    message: "case first hung, and fails when re-run alone".into(),
+                    original_case: None,
+                    stage: "hang-confirm".into(),
+                    seed,
+                    shard: s,
+                }),
+                Some(EXIT_HANG) | None => {
+                    if m.claims_termination {
+                        violations.push(Violation {
+                            case,
+                            message: format!(
+                                "did not return within {}s (twice, second time alone in a fresh process)",
+                                m.hang_secs
+                            ),
+                            original_case: None,
+                            stage: "hang".into(),
+                            seed,
+                            shard: s,
+                        });
+                    } else {
+                        inconclusive.push(format!(
+                            "{tag}: case does not return within {}s (property does not claim termination): {}",
+                            m.hang_secs, case
+                        ));
+                    }
+                }
+                Some(c) => internal_error(&format!("{tag}: hang confirmation exited {c}")),
+            }
+        }
+        if extra > 0 {
+            eprintln!("{extra} further hanging case(s) not confirmed individually");
         }
     }
 
